@@ -103,3 +103,13 @@ VARIANTS += [
          edits=[dict(file=PAT16, old="        steps_before_patience = steps[: -self._patience - 1]\n", new="        steps_before_patience = steps[: -(self._patience + 1)]\n"),
                 dict(file=PAT16, old="        steps_after_patience = steps[-self._patience - 1 :]\n", new="        steps_after_patience = steps[-(self._patience + 1) :]\n")]),
 ]
+
+VARIANTS += [
+    dict(id="c16-threshold-upper-by-truthiness", prop="C16", file="optuna/pruners/_threshold.py", expect="R16.3",
+         old="        if upper is not None:\n            upper = _check_value(upper)\n", new="        if upper:\n            upper = _check_value(upper)\n"),
+    dict(id="c16-patient-window-unsorted", prop="C16", file="optuna/pruners/_patient.py", expect="R16.2",
+         old="        steps.sort()\n", new=""),
+    dict(id="c16-sha-nan-recorded", prop="C16", file="optuna/pruners/_successive_halving.py", expect="R16.5",
+         old="            if math.isnan(value):\n                return True\n\n            if trials is None:\n                trials = study.get_trials(deepcopy=False)\n\n            rung_key = _completed_rung_key(rung)\n\n            study._storage.set_trial_system_attr(trial._trial_id, rung_key, value)\n",
+         new="            if trials is None:\n                trials = study.get_trials(deepcopy=False)\n\n            rung_key = _completed_rung_key(rung)\n\n            study._storage.set_trial_system_attr(trial._trial_id, rung_key, value)\n\n            if math.isnan(value):\n                return True\n"),
+]
